@@ -12,7 +12,7 @@ TRANSFORMS = [
     ["transform.translate", [1.0, -2.0, 0.5]], ["transform.rotate", [90.0, "z"]], ["transform.rotate", [30.0, "x"]],
     ["transform.rotate", [-45.0, "y"]], ["transform.scale", [2.0]], ["transform.scale", [2.0, 0.5]],
     ["transform.scale", [1.0, 2.0, 3.0]], ["transform.reflect", [[1.0, 1.0, 0.0]]], ["transform.reflect", [[0.0, 1.0, -2.0]]],
-    ["transform.mirror", ["xy"]], ["transform.mirror", ["zx"]], ["transform.set_pivot", [[1.0, 1.0, 0.0]]],
+    ["transform.mirror", ["xy"]], ["transform.mirror", ["zx"]], ["transform.mirror", []], ["transform.set_pivot", [[1.0, 1.0, 0.0]]],
     ["transform.set_pivot", [[0.5, -1.0, 2.0]]], ["transform.save_state", ["n"]], ["transform.restore_state", ["n"]],
     ["transform.save_state", []], ["transform.restore_state", []],
     ["transform.chain_transform", [["ref", "shear"]]],
